@@ -743,12 +743,57 @@ var isoForms = [][]string{
 		"2023-08-15T12:34:56.789+05:45", "2023-08-15T12:34:56.789012Z", "0001-01-01T00:00:00+00:00", "9999-12-31T23:59:59.999999-12:00", "2023-08-15T12:34:56+14:00"},
 }
 
+// chkContextZone: "with WithTZ such casts use the time zone carried by the
+// context".  The oracle is Go's time package, not the library: a zone-less
+// date or timestamp cast to timestamptz must be an instant whose wall clock in
+// the context zone is the wall clock of the source (when that wall clock
+// exists in the zone; either choice is accepted when it exists twice), and a
+// timestamptz cast to timestamp / date must be the wall clock / calendar day
+// that instant has in the context zone.
+func chkContextZone(st *stats, z pzone, s string, row []term) {
+	wall := func(t time.Time) string { return t.Format("2006-01-02T15:04:05.999999999") }
+	switch shape(s) {
+	case 0, 3:
+		ts, tz := row[3], row[4]
+		if !ts.ok || !tz.ok || kindOf(ts.v) != 3 || kindOf(tz.v) != 4 || !exists(z, ts.v) {
+			return
+		}
+		st.ev("c17.context-zone", !z.fixed)
+		want := wall(ts.v.GoTime())
+		got := wall(tz.v.GoTime().In(z.loc))
+		if got != want {
+			fail("c17.context-zone", "NONE", obj{"s": s, "method": "timestamp_tz", "zone": z.name, "options": []string{"WithTZ"}, "doc": s, "path": "$.timestamp_tz()"},
+				"an instant whose wall clock in the context zone is "+want, fmt.Sprint(tz.v)+" (wall clock "+got+")")
+		}
+	case 4:
+		ts, tz, d := row[3], row[4], row[0]
+		if !tz.ok || kindOf(tz.v) != 4 {
+			return
+		}
+		inst := tz.v.GoTime().In(z.loc)
+		if ts.ok && kindOf(ts.v) == 3 {
+			st.ev("c17.context-zone", !z.fixed)
+			if got, want := wall(ts.v.GoTime()), wall(inst); got != want {
+				fail("c17.context-zone", "NONE", obj{"s": s, "method": "timestamp", "zone": z.name, "options": []string{"WithTZ"}, "doc": s, "path": "$.timestamp()"},
+					"the wall clock of the instant in the context zone: "+want, got)
+			}
+		}
+		if d.ok && kindOf(d.v) == 0 {
+			st.ev("c17.context-zone", !z.fixed)
+			if got, want := d.v.GoTime().Format("2006-01-02"), inst.Format("2006-01-02"); got != want {
+				fail("c17.context-zone", "NONE", obj{"s": s, "method": "date", "zone": z.name, "options": []string{"WithTZ"}, "doc": s, "path": "$.date()"},
+					"the calendar day of the instant in the context zone: "+want, got)
+			}
+		}
+	}
+}
+
 func c17Strings(tier string, rng *rand.Rand) []string {
 	base := []string{
 		"2015-08-02", "2015-08-01", "2021-03-14", "2021-11-07", "2011-12-30", "2011-12-31", "0001-01-01", "9999-12-31", "2000-02-29", "1969-12-31", "2021-10-03", "2021-03-28",
 		"2015-08-02T00:00:00", "2015-08-01T23:59:59.999999999", "2015-08-02 00:00:00.000000001", "2021-03-14T01:45:00", "2021-03-14T02:30:00", "2021-03-14T03:15:00",
 		"2021-11-07T01:30:00", "2021-11-07 00:59:59.5", "2021-10-03T02:15:00", "2021-10-03T01:45:00", "2011-12-30T12:00:00", "2011-12-29T23:00:00", "2021-03-14T00:00:00",
-		"2021-03-28T00:30:00", "0001-01-01T00:00:00", "9999-12-31T23:59:59.999999", "1969-12-31T23:59:59",
+		"2021-03-28T00:30:00", "2021-11-07T03:00:00", "2021-11-07T05:59:59", "2021-03-14T06:30:00", "2024-11-03T03:00:00", "2021-04-04T02:15:00", "0001-01-01T00:00:00", "9999-12-31T23:59:59.999999", "1969-12-31T23:59:59",
 		"2021-03-14T06:40:00Z", "2021-03-14T07:30:00+00", "2021-03-14T06:30:00Z", "2021-03-14T02:45:00-04:00", "2015-08-02T00:00:00-04:00", "2015-08-02T04:00:00Z",
 		"2015-08-02T09:30:00+05:30", "2015-08-01T16:00:00-12:00", "2015-08-02T18:00:00+14:00", "2015-08-02 00:00:00+00", "2015-08-01T18:30:00+00:00",
 		"2021-11-07T05:30:00Z", "2021-11-07T06:30:00Z", "2011-12-30T10:00:00Z", "2011-12-31T00:00:00+14:00", "2021-10-02T15:30:00Z", "2021-03-28T05:00:00Z",
@@ -841,6 +886,7 @@ func runC17(tier string, seed int64) {
 					st.h("kinds", kindNames[kindOf(t.v)])
 				}
 			}
+			chkContextZone(st, z, s, tt[zi][si])
 		}
 	})
 	parallel(len(jobs), func(ji int, st *stats) {
@@ -1494,6 +1540,12 @@ func runOne(st *stats, check string, in map[string]any) {
 		if t.err != nil && (errClass(t.err) != "notrec" || !errors.Is(t.err, exec.ErrVerbose)) {
 			fail("c17.cast-with-tz", "NONE", in, "a value or a suppressible format error", errFlags(t.err))
 		}
+	case "c17.context-zone":
+		row := make([]term, 6)
+		for m := 0; m < 6; m++ {
+			row[m] = evalTerm(st, z, str("s"), m, true, false)
+		}
+		chkContextZone(st, z, str("s"), row)
 	case "c17.notz-cast":
 		chkNoTZCast(st, z, str("s"), methodIndex(str("method")))
 	case "c17.notz-compare":
